@@ -17,7 +17,8 @@ RULE = ('(formula, data, semantics in {standard, output_robustness, input_robust
         'only inputs, only outputs, mixed and variable-free all occur. Oracle: the reference semantics with the predicate rule of the '
         'statement (insensitive predicate -> +inf/-inf by satisfaction with strict/non-strict comparison as written, resp. 0 under the '
         'vacuity semantics; every other predicate keeps its robustness); second relation: under STANDARD the result is identical for '
-        'every io assignment (compared with the run without declarations and with the reference). Non-trivial = a non-standard '
+        'every io assignment (compared with the run without declarations and with the reference). Lane reparse: the io declarations of an object are changed and the text parsed again '
+        '(variables declared through the API, or implicitly by the first parse()): the result is that of a fresh object with the new declarations. Non-trivial = a non-standard '
         'semantics with >= 1 insensitive and >= 1 sensitive predicate; distinct = distinct (formula, data, semantics, io, kind) digests.')
 
 ASSUMPTIONS = [
@@ -223,6 +224,9 @@ def reparse_cases(draw, tier):
     c['sem'] = draw(st.sampled_from(SEMS[1:]))
     c['io2'] = draw(io_assign(c['vars']))
     c['online'] = draw(st.booleans())
+    # the variables are not declared through the API: the first parse() declares them (float, output) and only then
+    # can they be given an io type
+    c['implicit'] = draw(st.sampled_from([False, False, True]))
     return c
 
 
@@ -250,7 +254,11 @@ def check_reparse(case):
         return [p[1] for p in spec.evaluate({'time': [float(i) for i in range(n)], **{v: list(tr[v]) for v in vs}})]
     try:
         fresh = run(build('dt', text, vs, semantics=sem, io_types=io_clean(io2)))
-        spec = build('dt', text, vs, semantics=sem, io_types=io_clean(io1))
+        if case.get('implicit'):
+            io1 = {v: None for v in vs}
+            spec = build('dt', text, [], semantics=sem, declare=False)
+        else:
+            spec = build('dt', text, vs, semantics=sem, io_types=io_clean(io1))
         first = run(spec)
     except Exception as e:  # noqa
         return DISCARD('raises(C17):' + type(e).__name__, labels)
@@ -265,8 +273,8 @@ def check_reparse(case):
         return DISCARD('reparse-raises:' + type(e).__name__, labels)
     if any(not same(a, b, False) for a, b in zip(second, fresh)):
         return FAIL('reparse-stale-io:' + ('online' if case['online'] else 'offline'),
-                    'semantics %s\nspec: %s\ntrace: %s\nio first %s, then %s and parse() again\nsecond result: %s\nfresh object:  %s' % (
-                        sem, text, tr, io1, io2, fmt_vals(second), fmt_vals(fresh)), labels)
+                    'semantics %s\nspec: %s\ntrace: %s\n%sio first %s, then %s and parse() again\nsecond result: %s\nfresh object:  %s' % (
+                        sem, text, tr, 'variables declared by the first parse(), not through the API\n' if case.get('implicit') else '', io1, io2, fmt_vals(second), fmt_vals(fresh)), labels + (['implicit'] if case.get('implicit') else []))
     return PASS(io_clean(io1) != io_clean(io2) and first != fresh, labels)
 
 
